@@ -28,12 +28,14 @@ import (
 // Built is a generated case.
 type Built struct {
 	*space.Case
-	Param    string
-	YAML     string
-	Gogo     *gen.Result
-	TF       *gen.Result
-	Specs    map[string]*spec.Msg // per selected root that is mappable
-	Unmapped map[string]string    // root -> reason, for roots the oracle says cannot be mapped
+	Param string
+	YAML  string
+	Gogo  *gen.Result
+	// GogoSiblings: protoc-gen-gogo's output for the sibling files of the package
+	GogoSiblings []string
+	TF           *gen.Result
+	Specs        map[string]*spec.Msg // per selected root that is mappable
+	Unmapped     map[string]string    // root -> reason, for roots the oracle says cannot be mapped
 	// Emitted: the three functions of root are present in the output
 	Emitted    map[string]bool
 	Dir        string // package dir inside the module
@@ -163,11 +165,11 @@ func (m *Module) Generate(cases []*space.Case) []*Built {
 
 // FinalizeCase fills in the identifiers that depend on the case id.
 func (m *Module) FinalizeCase(c *space.Case) {
-	c.File.Pkg = c.ID
+	c.File.Pkg = c.ID + c.ProtoPkgSuffix
 	c.File.Name = c.ID + ".proto"
 	if c.Separate {
 		imp := m.modName() + "/cases/" + c.ID + "/" + structDir(c)
-		c.Cfg.TargetPkg = "tfschema"
+		c.Cfg.TargetPkg = TFPkg(c)
 		if c.Variant == "short+override" {
 			c.Cfg.DefaultPkg = "structs"
 			c.Cfg.ImportPathOverrides = map[string]string{"structs": imp}
@@ -175,6 +177,21 @@ func (m *Module) FinalizeCase(c *space.Case) {
 			c.Cfg.DefaultPkg = imp
 		}
 	}
+}
+
+// TFPkg is the name of the target package of a case in the separate layout.
+func TFPkg(c *space.Case) string {
+	if c.TFPkg != "" {
+		return c.TFPkg
+	}
+	return "tfschema"
+}
+
+func tfDirOf(c *space.Case) string {
+	if c.TFDir != "" {
+		return c.TFDir
+	}
+	return TFPkg(c)
 }
 
 func structDir(c *space.Case) string {
@@ -192,7 +209,17 @@ func (m *Module) generateOne(c *space.Case) *Built {
 	os.MkdirAll(dir, 0o755)
 	fd := c.File.Descriptor()
 	t0 := time.Now()
-	b.Gogo = gen.Run(m.Tools.Gogo, dsl.RequestFD(fd, ""), m.WorkDir())
+	extra := c.File.SiblingDescriptors()
+	b.Gogo = gen.Run(m.Tools.Gogo, dsl.RequestFD(fd, "", extra...), m.WorkDir())
+	for i, sfd := range extra {
+		// the sibling files of the package are compiled by protoc-gen-gogo as well
+		sr := gen.Run(m.Tools.Gogo, dsl.RequestFD(sfd, "", extra[:i]...), m.WorkDir())
+		if sr.ExitCode != 0 || sr.Resp == nil || sr.Resp.Error != nil || len(sr.Resp.File) != 1 {
+			b.Skip = "protoc-gen-gogo rejects the sibling descriptor: " + lastLine(sr.Stderr) + " " + sr.Resp.GetError()
+			return b
+		}
+		b.GogoSiblings = append(b.GogoSiblings, sr.Content())
+	}
 	b.GogoMs = time.Since(t0).Milliseconds()
 	if b.Gogo.ExitCode != 0 || b.Gogo.Resp == nil || b.Gogo.Resp.Error != nil || len(b.Gogo.Resp.File) != 1 {
 		b.Skip = "protoc-gen-gogo rejects the descriptor: " + lastLine(b.Gogo.Stderr) + " " + b.Gogo.Resp.GetError()
@@ -202,7 +229,7 @@ func (m *Module) generateOne(c *space.Case) *Built {
 	cfgPath := filepath.Join(dir, "config.yaml")
 	ioutil.WriteFile(cfgPath, []byte(b.YAML), 0o644)
 	b.Param = Param(cfgPath)
-	req := dsl.RequestFD(fd, b.Param)
+	req := dsl.RequestFD(fd, b.Param, extra...)
 	if os.Getenv("VERIF_KEEP") != "" {
 		ioutil.WriteFile(filepath.Join(dir, "request.bin"), req, 0o644)
 	}
@@ -289,13 +316,16 @@ func (m *Module) writePackage(b *Built) {
 	b.ImportPath = m.modName() + "/cases/" + c.ID
 	if c.Separate {
 		structsDir = filepath.Join(b.Dir, structDir(c))
-		tfDir = filepath.Join(b.Dir, "tfschema")
-		tfPkg = "tfschema"
-		b.ImportPath += "/tfschema"
+		tfDir = filepath.Join(b.Dir, tfDirOf(c))
+		tfPkg = TFPkg(c)
+		b.ImportPath += "/" + tfDirOf(c)
 		os.MkdirAll(structsDir, 0o755)
 		os.MkdirAll(tfDir, 0o755)
 	}
 	ioutil.WriteFile(filepath.Join(structsDir, "x.pb.go"), []byte(b.Gogo.Content()), 0o644)
+	for i, src := range b.GogoSiblings {
+		ioutil.WriteFile(filepath.Join(structsDir, fmt.Sprintf("x_sibling%d.pb.go", i)), []byte(src), 0o644)
+	}
 	ioutil.WriteFile(filepath.Join(structsDir, "support.go"), []byte("package "+pbPkg+"\n"+structSupport), 0o644)
 	ioutil.WriteFile(filepath.Join(tfDir, "x_terraform.go"), []byte(b.TF.Content()), 0o644)
 
